@@ -1696,7 +1696,10 @@ class PseudoNetCDFFile(PseudoNetCDFSelfReg, object):
                             axis=di, keepdims=True)
                     else:
                         newvals = np.apply_along_axis(dfunc, di, newvals)
-            newvaro = outf.copyVariable(varo, key=vark, withdata=False)
+            # the result keeps the type numpy gives it (the mean of integers
+            # is not an integer)
+            newvaro = outf.copyVariable(varo, key=vark, dtype=newvals.dtype,
+                                        withdata=False)
             newvaro[...] = newvals
         if verbose > 0:
             print()
